@@ -65,19 +65,11 @@ def det_options(rng, geom, expert=None):
         return det_options(rng, geom, expert)
     if expert is False and "expert=1" in toks:
         toks = [t for t in toks if t != "expert=1"]
-    # forced raw symbol coding of wide integers and > 20-bit quantization make the encoder allocate histograms of
-    # gigabytes (seconds per encode; out of memory under MALLOC_PERTURB_): not what this property is about
+    # forced raw symbol coding of wide integers makes the encoder build histograms of gigabytes before it reports
+    # failure (seconds per encode; out of memory under MALLOC_PERTURB_): not what this property is about.
+    # (> 20-bit quantization used to be capped here for the same reason; that was the genuine defect repaired by
+    # /repo 4ac05fd, so the full 1..30 range is generated again.)
     toks = [t for t in toks if not t.startswith("g:symbol_encoding_method")]
-    capped = []
-    for t in toks:
-        k, _, v = t.partition("=")
-        if len(k) > 1 and k[0] in "qx" and k[1:].isdigit():
-            f = v.split(",")
-            if int(f[0]) > 20:
-                f[0] = str(rng.choice([8, 11, 14, 16, 20]))
-            t = k + "=" + ",".join(f)
-        capped.append(t)
-    toks = capped
     if rng.random() < 0.45:
         toks = [t for t in toks if not t.startswith("method=")]
     if rng.random() < 0.5:
